@@ -81,5 +81,129 @@ def post_symm(ex, finished, extra_obs):
     return {'ncalls': ncalls}
 
 
+# ------------------------------------------------ CPython container API
+def _detkey(st, n, tag):
+    key = (tag, n.get('line'), (n.get('off') or (0, 0))[0])
+    cnt = st.ghost.get(key, 0)
+    st.ghost[key] = cnt + 1
+    return '%s@%s.%s#%d' % (tag, key[1], key[2], cnt)
+
+
+def dict_getitemstring(ex, st, n, args):
+    """PyDict_GetItemString(d, "key"): NULL (no exception) when the key is
+    absent, else the (borrowed) value; the same key gives the same object"""
+    d = ex.ev(args[0], st)
+    k = ex.ev(args[1], st)
+    from engine.cvc.exec import StrV, PyObj
+    if not isinstance(d, PtrV) or d.obj is None or not isinstance(k, StrV):
+        raise Unsupported('PyDict_GetItemString of %r' % (d,))
+    key = 'dict[%s]' % k.s
+    it = d.obj.extra.get(key)
+    if it is None:
+        it = ex.new_obj('%s[%s]' % (d.obj.name, k.s))
+        d.obj.extra[key] = it
+    absent = z3.Bool('absent(%s)' % it.name)
+    return PtrV(None, 0, 'PyObject', null=absent, obj=it)
+
+
+def list_size(ex, st, n, args):
+    p = ex.ev(args[0], st)
+    if not isinstance(p, PtrV) or p.obj is None:
+        raise Unsupported('PyList_Size of %r' % (p,))
+    ln = p.obj.extra.setdefault('seqlen', z3.Int('len(%s)' % p.obj.name))
+    ex.axioms.append(ln >= 0)
+    return IntV(ln, 'long')
+
+
+def list_getitem(ex, st, n, args):
+    """PyList_GetItem(l, i): the item (some object named by the site)"""
+    p = ex.ev(args[0], st)
+    if not isinstance(p, PtrV) or p.obj is None:
+        raise Unsupported('PyList_GetItem of %r' % (p,))
+    nm = '%s[%s]' % (p.obj.name, _detkey(st, n, 'item'))
+    it = ex.objs.get(nm) or ex.new_obj(nm)
+    return PtrV(None, 0, 'PyObject', obj=it)
+
+
+def long_aslong(ex, st, n, args):
+    p = ex.ev(args[0], st)
+    if isinstance(p, PtrV) and p.obj is not None:
+        v = p.obj.extra.setdefault('pyint', z3.Int('pyint(%s)' % p.obj.name))
+        return IntV(v, 'long')
+    raise Unsupported('PyLong_AsLong of %r' % (p,))
+
+
+def float_asdouble(ex, st, n, args):
+    from engine.cvc.exec import FltV
+    p = ex.ev(args[0], st)
+    if isinstance(p, PtrV) and p.obj is not None:
+        return FltV(z3.Real('pyfloat(%s)' % p.obj.name), 'double')
+    raise Unsupported('PyFloat_AsDouble of %r' % (p,))
+
+
+def assumed_mutates(fn):
+    """what the Python-side contracts (contracts/py/extern_cvxopt.py) assume
+    misc.<fn> may modify: the frame that C09's argument isolation rests on"""
+    from contracts.py.extern_cvxopt import LIB
+    name = 'cvxopt.misc.' + fn
+    if name in LIB.pure:
+        return set()
+    m = LIB.mutators.get(name)
+    if m is None:
+        return None
+    return set(x.split()[0] for x in m)
+
+
+def post_frame(ex, finished, extra_obs):
+    """kernel-frame: every store of the kernel goes into the buffer of an
+    argument the Python-side contract lists as modified, or into the kernel's
+    own work space"""
+    def ob(kind, pc, goal, text, line=0):
+        extra_obs.append(Oblig('%s:%s:%s' % (ex.fname, kind, text), kind,
+                               list(pc), z3.BoolVal(bool(goal)), text, line))
+    allowed = assumed_mutates(ex.fname)
+    if allowed is None:
+        raise Unsupported('no Python-side frame contract for misc.%s' %
+                          ex.fname)
+    nst = 0
+    seen = set()
+    for st, kind, val in finished:
+        parsed = st.ghost.get('parsed', {})
+        ok_regions = {}
+        for nm in allowed:
+            o = parsed.get(nm)
+            if o is not None and hasattr(o, 'buffer_region'):
+                ok_regions[id(o.buffer_region())] = nm
+        for srec in st.stores:
+            r = srec[0]
+            line = srec[4]
+            if r.kind in ('malloc', 'local', 'localfield'):
+                continue
+            nst += 1
+            key = (r.name, line, id(r) in ok_regions)
+            if key in seen:
+                continue
+            seen.add(key)
+            ob('kernel-frame', srec[3], id(r) in ok_regions,
+               'the store at line %s goes into an argument that misc.%s is '
+               'assumed to modify (%s); it goes into %s' % (
+                   line, ex.fname, ', '.join(sorted(allowed)) or 'none',
+                   r.name), line)
+    ob('covered', [], True, 'paths of misc.%s were executed' % ex.fname)
+    return {'stores': nst}
+
+
+KERNEL_EXTERNS = {
+    'PyDict_GetItemString': dict_getitemstring, 'PyList_Size': list_size,
+    'PyList_GET_SIZE': list_size, 'PyList_GetItem': list_getitem,
+    'PyList_GET_ITEM': list_getitem, 'PyLong_AsLong': long_aslong,
+    'PyLong_AS_LONG': long_aslong, 'PyFloat_AsDouble': float_asdouble,
+    'PyFloat_AS_DOUBLE': float_asdouble}
+
+
 FUNCS = {'symm': {'init': driver.pycfunction_init, 'post': post_symm,
                   'config': {}}}
+for _f in ('scale', 'scale2', 'pack', 'pack2', 'unpack', 'sprod', 'sinv',
+           'trisc', 'triusc', 'sdot', 'max_step'):
+    FUNCS[_f] = {'init': driver.pycfunction_init, 'post': post_frame,
+                 'config': {}, 'externs': KERNEL_EXTERNS}
